@@ -322,3 +322,25 @@ impl Lay {
         p.permuted_axes(IxDyn(&self.perm))
     }
 }
+
+/// Every NaN is a missing value: quiet or signalling, either sign, any payload.  Successive calls rotate through
+/// representative bit patterns (default quiet NaN, x86 default -NaN, a signalling NaN with payload such as R's NA_real_,
+/// its negative, a quiet NaN with payload).
+static NAN_KIND: std::sync::atomic::AtomicU64 = std::sync::atomic::AtomicU64::new(0);
+pub fn nan64() -> f64 {
+    let k = NAN_KIND.fetch_add(1, std::sync::atomic::Ordering::Relaxed);
+    let bits: u64 = match k % 7 { 0 | 1 | 2 => 0x7FF8_0000_0000_0000, 3 => 0xFFF8_0000_0000_0000, 4 => 0x7FF0_0000_0000_07A2, 5 => 0xFFF0_0000_0000_0001, _ => 0x7FFC_0000_DEAD_BEEF };
+    let x = f64::from_bits(bits);
+    assert!(x.is_nan());
+    x
+}
+pub fn nan32() -> f32 {
+    let k = NAN_KIND.fetch_add(1, std::sync::atomic::Ordering::Relaxed);
+    let bits: u32 = match k % 7 { 0 | 1 | 2 => 0x7FC0_0000, 3 => 0xFFC0_0000, 4 => 0x7F80_07A2, 5 => 0xFF80_0001, _ => 0x7FE0_BEEF };
+    let x = f32::from_bits(bits);
+    assert!(x.is_nan());
+    x
+}
+pub trait AnyNan { fn any_nan() -> Self; }
+impl AnyNan for f64 { fn any_nan() -> Self { nan64() } }
+impl AnyNan for f32 { fn any_nan() -> Self { nan32() } }
